@@ -226,6 +226,11 @@ func (eb *EventBuilder) Build(
 	if eventJSON, err = EnforcedCanonicalJSON(eventJSON, eb.version.Version()); err != nil {
 		return
 	}
+	// Other servers (and NewEventFromUntrustedJSON) refuse events in which an
+	// object repeats a member name, so don't build one.
+	if err = checkNoDuplicateKeys(eventJSON); err != nil {
+		return
+	}
 
 	res, err := eb.version.NewEventFromTrustedJSON(eventJSON, false)
 	if err != nil {
